@@ -13,6 +13,45 @@ CHECKS = {
     "C01": ("mc-model", E1, "exhaustive product enumeration (E1) of the real helpers against big-integer reference arithmetic",
             "Every fixed-point helper (u64 and u128 instantiations, three scales) is executed on the full Cartesian product of boundary and dense operand alphabets and compared with exact big-integer results; exhaustive within the alphabets.",
             "operands outside the alphabets are not covered; non-integer exponents of checked_pow are documented as inconsistent and excluded", "§4 C01"),
+    "C02": ("mc-model", E1, "exhaustive product enumeration (E1) against exact integer reference",
+            "FeeParams::apply_fees/fee, order fees and liquidation fees executed on the full product of factor/discount/receiver/amount/balance-change alphabets (every factor 0..100% at UNIT=100 plus invalid ones; boundary alphabet at u128/10^20) and compared with the exact split; exhaustive within the alphabets.",
+            "alphabets only; liquidation fee reached through PositionExt::position_fees on harness storage", "§4 C02"),
+    "C03": ("mc-model", E1, "exhaustive product enumeration (E1): forward change and exact reverse on the real PoolDelta::price_impact",
+            "Every (pool, two-sided delta, factor pair incl. positive>negative, exponent) tuple of the alphabets is priced forward and backward; sign-vs-classification and round-trip totals are decided literally; two by-design classes are listed as known findings, any other class fails.",
+            "whole-unit exponents only; values inside the alphabets", "§4 C03"),
+    "C04": ("mc-model", MC, "explicit-state BFS over the implementation (E2) with per-state swap probes",
+            "All action histories to the stated depth over 8 configurations x 2 scales; on every expanded state every swap request of the probe alphabet is executed on the real Swap action and holdings deltas / untouched-on-failure are compared exactly.",
+            "harness storage VMarket trusted; bounds: depth, alphabets, 3-4 position slots", "§4 C04"),
+    "C05": ("mc-model", MC, "explicit-state BFS over the implementation (E2) with per-state swap probes",
+            "Same exploration as C04; for every successful probe swap the output value at the max price is compared with input value at the min price plus the impact actually debited from the swap-impact pools.",
+            "as C04", "§4 C05"),
+    "C06": ("mc-model", MC, "explicit-state BFS over the implementation (E2) with per-state deposit/withdraw round-trip probes",
+            "On every expanded state each probe deposit is followed by withdrawal of everything minted; literal gain, per-leg token value and first-deposit pricing are decided; gains covered by the positive impact debited from the impact pool are a listed known finding, any excess fails.",
+            "as C04; price unchanged and no clock advance inside a round trip", "§4 C06"),
+    "C07": ("mc-model", MC, "explicit-state BFS over the implementation (E2), invariant on every state",
+            "Open interest (usd and tokens) and collateral sums are recomputed from the position slots after every action (including rolled-back failures) in every reachable state to the stated depth; tiny fixed-point scale makes tokens-round-to-zero reachable at depth 2.",
+            "as C04", "§4 C07"),
+    "C08": ("mc-model", MC, "explicit-state BFS over the implementation (E2) against a shadow token ledger",
+            "A shadow ledger of tokens paid in/out is kept next to the real market; after every successful action the change of accounted holdings must equal the ledger change up to funding collected minus claimable funding paid, exactly; the literal non-negativity of that residual is decided too (by-design lazy settlement is a listed known finding, deficits beyond unsettled accrual fail).",
+            "as C04", "§4 C08"),
+    "C09": ("mc-model", MC, "explicit-state BFS over the implementation (E2), transition checks",
+            "After every successful increase/decrease the remaining position is tested with the liquidation predicate at the execution prices; a liquidation may succeed only on a position that was liquidatable and must close it. ADL clause: not covered here (store-level).",
+            "as C04; ADL pre/post conditions live in the store program and are outside this check", "§4 C09"),
+    "C10": ("mc-model", MC, "explicit-state BFS over the implementation (E2) with per-state open/close probes",
+            "On every expanded state fresh positions of all four side/collateral kinds are opened and fully closed at once; value received (outputs + claimables) is compared with collateral value + 2 base units.",
+            "as C04", "§4 C10"),
+    "C11": ("mc-model", E1, "exhaustive product enumeration (E1) over positions, pools and an ascending price list",
+            "pnl_value evaluated for every (side, size, tokens, cap, pool, other OI) x 14 ascending index prices x partial sizes; monotonicity, cap and proportional share decided; pool-level cap artefact listed as known finding.",
+            "long-token price fixed while the index price moves", "§4 C11"),
+    "C12": ("mc-model", MC, "E1 product over funding parameters/OI/duration plus E2 BFS invariants on funding indices",
+            "Rate bounds and payer side on the full product of parameter sets, stored factors, OI pairs, durations; funding and claimable indices monotone and pending funding computable in every reachable state of the history explorer.",
+            "as C04", "§4 C12"),
+    "C13": ("mc-model", MC, "explicit-state BFS over the implementation (E2), invariant on every state",
+            "Cumulative borrowing factors monotone, total borrowing equals the per-position sum within one unit per position, pending borrowing fees compute in every reachable state, for exponent and kink models.",
+            "as C04", "§4 C13"),
+    "C14": ("mc-model", MC, "E1 product on the pending-distribution function plus E2 BFS over distribute/advance histories",
+            "Distribution amount compared with min(rate*dt, excess over floor) on the full product; all distribute/advance sequences to depth 6/8 from pools above/at/below the floor keep the pool non-increasing and above the floor.",
+            "alphabets only", "§4 C14"),
 }
 
 NOT_YET = "no check built yet in this round (planned in DESIGN.md); not claimed"
